@@ -1,6 +1,7 @@
 # Copyright (c) Microsoft Corporation. All rights reserved.
 # Licensed under the MIT License.
 import sys
+import threading
 from typing import Any, Optional, Sequence, Tuple, Union
 
 import attrs
@@ -13,12 +14,21 @@ OptionalPrimitive = Optional[Union[bool, int, str, float]]
 
 # Flag to ensure we only resolve forward references once.
 _resolved_forward_references = False
+# Guards the one-time resolution: `resolve_types` mutates `ALL_TYPES_MAP`, so
+# only one thread may iterate over it and resolve.
+_resolve_forward_references_lock = threading.Lock()
 
 
 def _resolve_forward_references() -> None:
     """Resolve forward references for faster processing with cattrs."""
     global _resolved_forward_references
-    if not _resolved_forward_references:
+    if _resolved_forward_references:
+        return
+
+    with _resolve_forward_references_lock:
+        # Another thread may have completed the resolution while we were waiting.
+        if _resolved_forward_references:
+            return
 
         def _filter(p: Tuple[str, object]) -> bool:
             return isinstance(p[1], type) and attrs.has(p[1])
